@@ -100,6 +100,8 @@ def pinned_cases():
 def run(ctx):
     n = 2500 if ctx.thorough() else 500
     core.check_props(ctx, ["Props/C19.v"])
+    from vlib import ties2
+    ties2.run(ctx, "Tie/C19.v")
     cases = pinned_cases() + [gen_case(ctx.rng) for _ in range(n)]
     reqs, impl, kept = [], [], []
     rec_fail = 0
